@@ -90,12 +90,15 @@ class LoginPage(HTMLHandlerBase):
     def delete(self) -> flask.Response:
         for token in jwt_current_user.tokens:
             token.revoked = True
+        # jwt_required() only accepts access tokens, so the token used to make
+        # this request must be recorded as a revoked *access* token. Token.is_revoked()
+        # looks for a row with the token's own type.
         jti: str = get_jwt()["jti"]
-        refresh_token: Token | None = Token.get_one(jti=jti, token_type=TokenType.REFRESH.value)
-        if refresh_token is None:
-            refresh_token = Token(jti=jti, token_type=TokenType.REFRESH.value, user=jwt_current_user)
-            db.session.add(refresh_token)
-        refresh_token.revoked = True
+        access_token: Token | None = Token.get_one(jti=jti, token_type=TokenType.ACCESS.value)
+        if access_token is None:
+            access_token = Token(jti=jti, token_type=TokenType.ACCESS.value, user=jwt_current_user)
+            db.session.add(access_token)
+        access_token.revoked = True
         db.session.commit()
         logout_user()
         return jsonify_no_content(204)
